@@ -55,3 +55,8 @@ func Verif_C20_FilterExpiredKeys() { verifFilterExpiredKeys("C20") }
 // captures and restores (C03).
 func Verif_C09_FilterExpiredKeys() { verifFilterExpiredKeys("C09") }
 func Verif_C03_FilterExpiredKeys() { verifFilterExpiredKeys("C03") }
+
+// Removing an entry here is a removal "by expiry" (C04: keys whose deadline has not passed, and keys
+// without one, are never removed by expiry), and the raft snapshot of a node goes through it too (C07).
+func Verif_C04_FilterExpiredKeys() { verifFilterExpiredKeys("C04") }
+func Verif_C07_FilterExpiredKeys() { verifFilterExpiredKeys("C07") }
